@@ -89,6 +89,19 @@ def run(ctx):
         if len(set(allK)) != len(allK):
             ctx.violation("linear-draws-repeated", "a linear-parameter draw (K) occurs more than once across the calls/batches of one "
                           "scenario (%d values, %d distinct)" % (len(allK), len(set(allK))), desc)
+        seenP = {}
+        for k, e in enumerate(r1):
+            for x in e.get("P_bycount", []):
+                if x in seenP and seenP[x] != k:
+                    ctx.violation("by-count-library-reused", "calls %d and %d (%s) both asked for prior samples by count and returned the "
+                                  "same period %r: the second library was not drawn from the generator" % (seenP[x], k, e["kind"], x),
+                                  dict(desc, call=k))
+                    break
+                seenP[x] = k
+            else:
+                continue
+            break
+        ctx.count("by_count_periods_compared", len(seenP))
         if i % 3 == 0:
             ctx.sample(dict(desc, digests=[e["digest"] for e in r1], rows=[e["n"] for e in r1], child_streams=len(keys)))
     mp.close()
